@@ -5,6 +5,8 @@
 mod hist;
 mod histrun;
 mod oalloc;
+mod tbl;
+mod tbl15;
 mod util;
 
 #[global_allocator]
@@ -14,6 +16,7 @@ fn main() {
     let args = util::Args::parse(std::env::args().skip(1));
     let code = match args.pos.first().map(|s| s.as_str()) {
         Some("hist") => histrun::main_hist(&args),
+        Some("tbl") => tbl::main_tbl(&args),
         _ => {
             eprintln!("usage: vf <hist|buf|tbl|fault|recycle|digest> [--key value]...");
             2
